@@ -4,6 +4,7 @@ go 1.26.3
 
 require (
 	github.com/fxamacker/cbor/v2 v2.9.2
+	github.com/miekg/dns v1.1.72
 	github.com/mycoria/mycoria v0.0.0
 )
 
@@ -12,7 +13,6 @@ require (
 	github.com/klauspost/cpuid/v2 v2.4.0 // indirect
 	github.com/leekchan/gtf v0.0.0-20190214083521-5fba33c5b00b // indirect
 	github.com/mdlayher/ndp v1.1.0 // indirect
-	github.com/miekg/dns v1.1.72 // indirect
 	github.com/mitchellh/copystructure v1.2.0 // indirect
 	github.com/mitchellh/reflectwalk v1.0.2 // indirect
 	github.com/mr-tron/base58 v1.3.0 // indirect
